@@ -307,3 +307,15 @@ Qed.
 
 Lemma split_results_length : forall s subs, length (split_results s subs) = length subs.
 Proof. intros. unfold split_results. apply map_length. Qed.
+
+(* ---- an idle (released) connection sits at a frame boundary ---- *)
+Lemma released_at_frame_boundary : forall ls s c, prun pinit ls = Some s -> In c (idle s) ->
+  cst (cn s c) = CLoop /\ lastok (cn s c) = true /\
+  forall f, In f (cwire (cn s c)) ->
+    exists k, fid f = wrap32 k /\ lookup_ord k (bsent (cn s c)) = Some (fown f).
+Proof.
+  intros ls s c H Hi. destruct (NInv_run ls s H) as [P N].
+  destruct (p_idle s P c Hi) as [A _]. repeat split; auto.
+  - apply (p_ok s P). rewrite A. discriminate.
+  - intros f Hf. apply (n_wire s N c f Hf).
+Qed.
